@@ -399,8 +399,8 @@ fn c12() -> PureResult {
     use cv::state as st;
     let mut r = PureResult {
         exhaustive: true,
-        rule: "(a) every combination of boundary field values x every updater: the updated field matches an unbounded-integer reference and the other fields are unchanged; (b) the modular age test for current epochs {0..200, 2^16+-8, 2^32+-8, 2^40+0..15} x true ages -2..64: never 'old' below age 3, always 'old' for ages 3..13; (c) the stamp merge over all age triples -2..40: merged decision old implies every input at least 3 old, and inside the window the merged stamp is the youngest".into(),
-        bounds: json!({"field_values": "0,1,2,2^28,max-1,max", "epochs": "0..200, 2^16+-8, 2^32+-8, 2^40+0..15", "ages": "-2..64"}),
+        rule: "(a) every combination of boundary field values x every updater: the updated field matches an unbounded-integer reference and the other fields are unchanged; (b) the modular age test for current epochs {0..200, 2^16+-8, 2^32+-8, 2^40+0..15, 2^62+-8, 2^63-25..2^63-1} x true ages -2..64: never 'old' below age 3, always 'old' for ages 3..13; (c) the stamp merge over all age triples -2..40: merged decision old implies every input at least 3 old, and inside the window the merged stamp is the youngest".into(),
+        bounds: json!({"field_values": "0,1,2,2^28,max-1,max", "epochs": "0..200, 2^16+-8, 2^32+-8, 2^40+0..15, 2^62+-8, 2^63-25..2^63-1", "ages": "-2..64"}),
         ..Default::default()
     };
     // (a)
@@ -499,11 +499,20 @@ fn c12() -> PureResult {
     for d in 0..16 {
         epochs.push((1usize << 40) + d);
     }
+    // the largest epochs there are (the counter has 63 bits)
+    for d in 0..=16 {
+        epochs.push((1usize << 62) - 8 + d);
+    }
+    for d in 0..=24 {
+        epochs.push((1usize << 63) - 1 - d);
+    }
     let mut beyond_old = 0u64;
     let mut beyond_recent = 0u64;
     for &cur in epochs.iter() {
         for age in -2i64..=64 {
-            let stamp_epoch = cur as i64 - age;
+            let Some(stamp_epoch) = (cur as i64).checked_sub(age) else {
+                continue;
+            };
             if stamp_epoch < 0 {
                 continue;
             }
